@@ -123,7 +123,8 @@ def split_probs(rng, n):
 
 def gen_comparison(rng, col, other, backend, allow_tf, upper=None):
     """Custom comparison dict on column `col` + generator ground truth (`exact` per level)."""
-    q = lambda c: f'"{c}"'  # noqa: E731
+    qc = "`" if backend == "spark" else '"'      # identifier quoting of the backend's dialect
+    q = lambda c: f"{qc}{c}{qc}"  # noqa: E731
     kind = rng.choice(["exact", "exact", "prefix", "never", "nonull", "multi", "asym"])
     levels = []
     truth = []
@@ -191,7 +192,8 @@ def gen_case(rng, backend, level_fix=False):
         else:
             rcols = []
         if rcols:
-            rule = " AND ".join(f'l."{c}" = r."{c}"' for c in rcols)
+            qc = "`" if backend == "spark" else '"'
+            rule = " AND ".join(f"l.{qc}{c}{qc} = r.{qc}{c}{qc}" for c in rcols)
         else:
             rule = "1=1"
         fm, fu = rng.choice([(False, False), (False, True), (False, True), (True, False)])
@@ -225,24 +227,24 @@ class Capture:
         return t
 
 
-def frames(case):
+def frames(case, plain_objects=False):
     out = []
     for tab in case["tables"]:
         d = pd.DataFrame(tab)
         for c in d.columns:
             if c != "unique_id":
-                d[c] = d[c].astype("string")
+                d[c] = d[c].astype(object).where(d[c].notna(), None) if plain_objects else d[c].astype("string")
         out.append(d)
     return out
 
 
-def make_linker(case):
+def make_linker(case, api=None):
     from splink import SettingsCreator
     s = SettingsCreator(link_type=case["link_type"], comparisons=copy.deepcopy(case["comparisons"]),
                         probability_two_random_records_match=case["prior"],
                         max_iterations=case["max_iterations"], em_convergence=case["em_convergence"])
-    tabs = frames(case)
-    return su.linker(tabs, s, case["backend"], aliases=["ta", "tb", "tc"][:len(tabs)] if len(tabs) > 1 else None)
+    tabs = frames(case, plain_objects=api is not None)
+    return su.linker(tabs, s, case["backend"], aliases=["ta", "tb", "tc"][:len(tabs)] if len(tabs) > 1 else None, api=api)
 
 
 def pv(raw, read):
@@ -280,10 +282,10 @@ def read_model(case, cms, with_tf):
                       "levels": read_levels(case, cc, with_tf)} for cc in cms.comparisons]}
 
 
-def run_sessions(case, only=None):
+def run_sessions(case, only=None, api=None):
     """Run the case's sessions on the real code; one record per session."""
     from splink.internals.parse_sql import get_columns_used_from_sql
-    lk = make_linker(case)
+    lk = make_linker(case, api=api)
     cap = Capture(lk._db_api)
     dialect = lk._db_api.sql_dialect.sqlglot_dialect
     recs = []
@@ -316,6 +318,7 @@ def run_sessions(case, only=None):
                 for nm in active:
                     tc = truth_of(case, nm)["tfcol"]
                     a, b = (r.get(f"tf_{tc}_l"), r.get(f"tf_{tc}_r")) if tc else (None, None)
+                    a, b = (None if x is None or x != x else x for x in (a, b))     # NaN (Spark via pandas) is NULL
                     a, b = (a if a is not None else b), (b if b is not None else a)
                     tfs.append(None if a is None else Fraction(max(a, b)))
                 data.append(([int(r[gcol(nm)]) for nm in active], Fraction(1), tfs))
